@@ -835,4 +835,325 @@ theorem char_rangeFrom : ∀ (k : Nat) (a : Nat), isScalar a = true → k ≤ (c
     rw [charRangeList_cons a 0x110000 (by omega) hs, hnext _ (by omega)]
     simp
 
+/-! ### H. `a..` observed step by step, up to and past MAX -/
+
+theorem rf_next_ne_done {α} (S : Step α) (a : α) : RangeFromIter.next S a ≠ .done := by
+  unfold RangeFromIter.next
+  split
+  · simp
+  · split <;> simp
+
+theorem forEachBreak_eq_pulls {α σ} (next : σ → Outcome α σ) : ∀ (k : Nat) (s : σ),
+    forEachBreak next s k = pulls next s k := by
+  intro k
+  induction k with
+  | zero => intro s; rfl
+  | succ k ih =>
+    intro s
+    rw [forEachBreak, pulls]
+    cases next s with
+    | panic => rfl
+    | done => rfl
+    | item x s' =>
+      simp only
+      by_cases hk : k = 0
+      · subst hk; simp [pulls]
+      · rw [if_neg hk, ih]
+
+theorem zipInLoop_eq_pulls {α σ} (next : σ → Outcome α σ) : ∀ (k : Nat) (s : σ),
+    zipInLoop next s k = pulls next s k := by
+  intro k
+  induction k with
+  | zero => intro s; rfl
+  | succ k ih =>
+    intro s
+    rw [zipInLoop, pulls]
+    cases next s with
+    | panic => rfl
+    | done => rfl
+    | item x s' => simp only; rw [ih]
+
+theorem zipLoop_eq_takeLoop {α σ} (next : σ → Outcome α σ) : ∀ (m : Nat) (s : σ),
+    zipLoop next s m = takeLoop next s m := by
+  intro m
+  induction m with
+  | zero => intro s; rw [zipLoop, takeLoop]
+  | succ m ih =>
+    intro s
+    rw [zipLoop, takeLoop]
+    cases next s with
+    | panic => rfl
+    | done => rfl
+    | item x s' => simp only; rw [ih]
+
+theorem pulls_no_end {α σ} (next : σ → Outcome α σ) (hn : ∀ s, next s ≠ .done) : ∀ (k : Nat) (s : σ),
+    Tok.end_ ∉ pulls next s k := by
+  intro k
+  induction k with
+  | zero => intro s; simp [pulls]
+  | succ k ih =>
+    intro s
+    rw [pulls]
+    have := hn s
+    cases h : next s with
+    | panic => simp
+    | done => exact absurd h this
+    | item x s' => simp only [List.mem_cons, not_or]; exact ⟨by simp, ih s'⟩
+
+theorem takeLoop_no_end {α σ} (next : σ → Outcome α σ) (hn : ∀ s, next s ≠ .done) : ∀ (k : Nat) (s : σ),
+    Tok.end_ ∉ takeLoop next s k := by
+  intro k
+  induction k with
+  | zero =>
+    intro s
+    rw [takeLoop]
+    have := hn s
+    cases h : next s with
+    | panic => simp
+    | done => exact absurd h this
+    | item x s' => simp
+  | succ k ih =>
+    intro s
+    rw [takeLoop]
+    have := hn s
+    cases h : next s with
+    | panic => simp
+    | done => exact absurd h this
+    | item x s' => simp only [List.mem_cons, not_or]; exact ⟨by simp, ih s'⟩
+
+theorem nthLoop_no_end {α σ} (next : σ → Outcome α σ) (hn : ∀ s, next s ≠ .done) : ∀ (n : Nat) (s : σ),
+    nthLoop next s n ≠ Tok.end_ := by
+  intro n
+  induction n with
+  | zero =>
+    intro s
+    rw [nthLoop]
+    have := hn s
+    cases h : next s with
+    | panic => simp
+    | done => exact absurd h this
+    | item x s' => simp
+  | succ n ih =>
+    intro s
+    rw [nthLoop]
+    have := hn s
+    cases h : next s with
+    | panic => simp
+    | done => exact absurd h this
+    | item x s' => exact ih s'
+
+theorem findLoop_no_end {α σ} (next : σ → Outcome α σ) (p : α → Bool) (hn : ∀ s, next s ≠ .done) :
+    ∀ (fuel : Nat) (s : σ), findLoop next p s fuel ≠ Tok.end_ := by
+  intro fuel
+  induction fuel with
+  | zero =>
+    intro s
+    rw [findLoop]
+    have := hn s
+    cases h : next s with
+    | panic => simp
+    | done => exact absurd h this
+    | item x s' => simp
+  | succ n ih =>
+    intro s
+    rw [findLoop]
+    have := hn s
+    cases h : next s with
+    | panic => simp
+    | done => exact absurd h this
+    | item x s' =>
+      simp only
+      by_cases hp : p x = true
+      · rw [if_pos hp]; simp
+      · rw [if_neg hp]; exact ih s'
+
+theorem int_rf_next_lt (MIN MAX a : Int) (h : a < MAX) :
+    RangeFromIter.next (intStep MIN MAX) a = .item a (a + 1) := by
+  have hov : ¬ (a + 1 > MAX) := by omega
+  simp [RangeFromIter.next, intStep, intIncrement, overflowingAdd1, hov]
+
+theorem int_rf_next_max (MIN MAX a : Int) (h : a = MAX) :
+    RangeFromIter.next (intStep MIN MAX) a = .panic := by
+  have hov : a + 1 > MAX := by omega
+  simp [RangeFromIter.next, intStep, intIncrement, overflowingAdd1, hov]
+
+theorem ofRun_cons {α} (x : α) (l : List α) (p : Bool) : Tok.ofRun (x :: l, p) = .v x :: Tok.ofRun (l, p) := by
+  simp [Tok.ofRun]
+
+theorem rangeFromChecked_zero (MAX a : Int) : rangeFromChecked MAX a 0 = ([], false) := by
+  simp [rangeFromChecked, rangeFromList_zero]
+
+theorem rangeFromChecked_max (MAX : Int) (k : Nat) : rangeFromChecked MAX MAX k = ([], decide (0 < k)) := by
+  simp [rangeFromChecked, rangeFromList_zero]
+
+theorem rangeFromChecked_succ (MAX a : Int) (k : Nat) (h : a < MAX) :
+    rangeFromChecked MAX a (k + 1)
+      = (a :: (rangeFromChecked MAX (a + 1) k).1, (rangeFromChecked MAX (a + 1) k).2) := by
+  obtain ⟨d, hd⟩ : ∃ d : Nat, (MAX - a).toNat = d + 1 := ⟨(MAX - a).toNat - 1, by omega⟩
+  have hd' : (MAX - (a + 1)).toNat = d := by omega
+  simp only [rangeFromChecked, hd, hd']
+  have : min (k + 1) (d + 1) = min k d + 1 := by omega
+  rw [this, rangeFromList_succ]
+  simp
+
+theorem int_pulls (MIN MAX : Int) : ∀ (k : Nat) (a : Int), a ≤ MAX →
+    pulls (RangeFromIter.next (intStep MIN MAX)) a k = Tok.ofRun (rangeFromChecked MAX a k) := by
+  intro k
+  induction k with
+  | zero => intro a _; simp [pulls, rangeFromChecked_zero, Tok.ofRun]
+  | succ k ih =>
+    intro a ha
+    rw [pulls]
+    by_cases hm : a = MAX
+    · rw [int_rf_next_max MIN MAX a hm, hm, rangeFromChecked_max]
+      simp [Tok.ofRun]
+    · have hlt : a < MAX := by omega
+      rw [int_rf_next_lt MIN MAX a hlt, rangeFromChecked_succ MAX a k hlt, ofRun_cons]
+      simp only
+      rw [ih (a + 1) (by omega)]
+
+theorem int_takeLoop (MIN MAX : Int) : ∀ (k : Nat) (a : Int), a ≤ MAX → k ≠ (MAX - a).toNat →
+    takeLoop (RangeFromIter.next (intStep MIN MAX)) a k = Tok.ofRun (rangeFromChecked MAX a k) := by
+  intro k
+  induction k with
+  | zero =>
+    intro a ha hk
+    have hlt : a < MAX := by omega
+    rw [takeLoop, int_rf_next_lt MIN MAX a hlt]
+    simp [rangeFromChecked_zero, Tok.ofRun]
+  | succ k ih =>
+    intro a ha hk
+    rw [takeLoop]
+    by_cases hm : a = MAX
+    · rw [int_rf_next_max MIN MAX a hm, hm, rangeFromChecked_max]
+      simp [Tok.ofRun]
+    · have hlt : a < MAX := by omega
+      rw [int_rf_next_lt MIN MAX a hlt, rangeFromChecked_succ MAX a k hlt, ofRun_cons]
+      simp only
+      rw [ih (a + 1) (by omega) (by omega)]
+
+theorem int_takeLoop_at_max (MIN MAX : Int) : ∀ (k : Nat) (a : Int), a ≤ MAX → k = (MAX - a).toNat →
+    takeLoop (RangeFromIter.next (intStep MIN MAX)) a k = Tok.ofRun (rangeFromList a k, true) := by
+  intro k
+  induction k with
+  | zero =>
+    intro a ha hk
+    have hm : a = MAX := by omega
+    rw [takeLoop, int_rf_next_max MIN MAX a hm]
+    simp [rangeFromList_zero, Tok.ofRun]
+  | succ k ih =>
+    intro a ha hk
+    have hlt : a < MAX := by omega
+    rw [takeLoop, int_rf_next_lt MIN MAX a hlt, rangeFromList_succ, ofRun_cons]
+    simp only
+    rw [ih (a + 1) (by omega) (by omega)]
+
+theorem zipOfRun_int_succ (MAX a : Int) (k : Nat) (h : a < MAX) :
+    zipOfRun (rangeFromChecked MAX a) (k + 1)
+      = (a :: (zipOfRun (rangeFromChecked MAX (a + 1)) k).1, (zipOfRun (rangeFromChecked MAX (a + 1)) k).2) := by
+  simp only [zipOfRun]
+  rw [rangeFromChecked_succ MAX a (k + 1) h]
+  simp only
+  by_cases hp : (rangeFromChecked MAX (a + 1) (k + 1)).2 = true
+  · simp [hp]
+  · simp [hp]
+
+theorem int_zipLoop (MIN MAX : Int) : ∀ (k : Nat) (a : Int), a ≤ MAX →
+    zipLoop (RangeFromIter.next (intStep MIN MAX)) a k = Tok.ofRun (zipOfRun (rangeFromChecked MAX a) k) := by
+  intro k
+  induction k with
+  | zero =>
+    intro a ha
+    rw [zipLoop]
+    by_cases hm : a = MAX
+    · rw [int_rf_next_max MIN MAX a hm, hm]
+      simp [zipOfRun, rangeFromChecked_max, Tok.ofRun]
+    · have hlt : a < MAX := by omega
+      rw [int_rf_next_lt MIN MAX a hlt]
+      simp [zipOfRun, rangeFromChecked_succ MAX a 0 hlt, rangeFromChecked_zero, Tok.ofRun]
+  | succ k ih =>
+    intro a ha
+    rw [zipLoop]
+    by_cases hm : a = MAX
+    · rw [int_rf_next_max MIN MAX a hm, hm]
+      simp [zipOfRun, rangeFromChecked_max, Tok.ofRun]
+    · have hlt : a < MAX := by omega
+      rw [int_rf_next_lt MIN MAX a hlt, zipOfRun_int_succ MAX a k hlt, ofRun_cons]
+      simp only
+      rw [ih (a + 1) (by omega)]
+
+/-- the observation of `nth`/`next` as a consumer -/
+def tokOfNth {α} : Option α → Tok α
+  | some x => .v x
+  | none => .panic
+
+theorem int_nthLoop (MIN MAX : Int) : ∀ (n : Nat) (a : Int), a ≤ MAX →
+    nthLoop (RangeFromIter.next (intStep MIN MAX)) a n = tokOfNth (nthOfRun (rangeFromChecked MAX a) n) := by
+  intro n
+  induction n with
+  | zero =>
+    intro a ha
+    rw [nthLoop]
+    by_cases hm : a = MAX
+    · rw [int_rf_next_max MIN MAX a hm, hm]
+      simp [nthOfRun, rangeFromChecked_max, tokOfNth]
+    · have hlt : a < MAX := by omega
+      rw [int_rf_next_lt MIN MAX a hlt]
+      simp [nthOfRun, rangeFromChecked_succ MAX a 0 hlt, rangeFromChecked_zero, tokOfNth]
+  | succ n ih =>
+    intro a ha
+    rw [nthLoop]
+    by_cases hm : a = MAX
+    · rw [int_rf_next_max MIN MAX a hm, hm]
+      simp [nthOfRun, rangeFromChecked_max, tokOfNth]
+    · have hlt : a < MAX := by omega
+      rw [int_rf_next_lt MIN MAX a hlt]
+      simp only
+      rw [ih (a + 1) (by omega)]
+      simp only [nthOfRun]
+      rw [rangeFromChecked_succ MAX a (n + 1) hlt]
+      simp
+
+theorem charRangeFromChecked_zero (a : Nat) : charRangeFromChecked a 0 = ([], false) := by
+  simp [charRangeFromChecked, charRangeFromList]
+
+theorem char_pulls : ∀ (k : Nat) (a : Nat), isScalar a = true →
+    pulls (RangeFromIter.next charStep) a k = Tok.ofRun (charRangeFromChecked a k) := by
+  intro k
+  induction k with
+  | zero => intro a _; simp [pulls, charRangeFromChecked_zero, Tok.ofRun]
+  | succ k ih =>
+    intro a hs
+    obtain ⟨nx, hinc, hnx, n1, _, n3⟩ := charIncrement_eq a 0x10FFFF hs
+    rw [pulls]
+    by_cases hm : a = 0x10FFFF
+    · subst hm
+      have key : RangeFromIter.next charStep 0x10FFFF = .panic := by
+        simp [RangeFromIter.next, charStep, hinc]
+      rw [key]
+      have e : charRangeList 0x10FFFF 0x110000 = [0x10FFFF] := by decide
+      simp [charRangeFromChecked, charRangeFromList, e, Tok.ofRun]
+    · have hlt : a < 0x10FFFF := by
+        have := (isScalar_iff a).mp hs
+        omega
+      have key : RangeFromIter.next charStep a = .item a nx := by
+        simp [RangeFromIter.next, charStep, hinc, hm]
+      rw [key]
+      simp only
+      rw [ih nx hnx]
+      have hnext : charRangeList (a + 1) 0x110000 = charRangeList nx 0x110000 := by
+        by_cases h1 : a = 0xD7FF
+        · rw [n1 h1, h1]; exact charRangeList_gap_front _ (Or.inr (by omega))
+        · rw [n3 h1 hm]
+      have hl : charRangeFromList a (k + 1) = a :: charRangeFromList nx k := by
+        simp only [charRangeFromList]
+        rw [charRangeList_cons a 0x110000 (by omega) hs, hnext]
+        simp
+      simp only [charRangeFromChecked, hl]
+      have hf : decide (a < 0x10FFFF) = true := by simp [hlt]
+      simp [hf, Tok.ofRun]
+
+theorem charRangeFromCheckedFast_eq (a k : Nat) : charRangeFromCheckedFast a k = charRangeFromChecked a k := by
+  simp only [charRangeFromCheckedFast, charRangeFromChecked, charRangeFromFast_eq']
+
 end Konst.Range.Lemmas
